@@ -355,8 +355,13 @@ def searchLines (fs : FS) (c : Cache) (beginMs maxLines : Nat) : Cache × Option
 /-- what an item looks like after the line round trip (C18 `line_roundtrip`): `|` in the name replaced -/
 def stored (it : MItem) : MItem := { it with resource := sanitize it.resource, rtype := rtypeOfU8 it.rtype }
 
+/-- the item's second lies in the window of seconds -/
+def inWin (bs es : Nat) (it : MItem) : Bool := decide (bs ≤ it.ts / 1000) && decide (it.ts / 1000 ≤ es)
+/-- no resource asked for, or this one -/
+def resMatch (res : List Char) (it : MItem) : Bool := res.isEmpty || decide (res = it.resource)
+
 def inRange (beginMs endMs : Nat) (res : List Char) (it : MItem) : Bool :=
-  beginMs / 1000 ≤ it.ts / 1000 && it.ts / 1000 ≤ endMs / 1000 && (res.isEmpty || res == it.resource)
+  inWin (beginMs / 1000) (endMs / 1000) it && resMatch res it
 
 def specRange (held : List MItem) (beginMs endMs : Nat) (res : List Char) : List MItem :=
   held.filter (inRange beginMs endMs res)
